@@ -33,6 +33,13 @@ let dispatch fn args = match fn, args with
     (match rowGuard (z_of_hex mdb) (opt pred) (opt colors) (opt bpc) (opt columns) (z_of_hex maxlen) with
      | RPassThru -> "passthru" | RErr -> "err" | RErrLimit -> "limit"
      | RAlloc (rs, rl) -> Printf.sprintf "alloc:%s:%s" (hex_of_z rs) (hex_of_z rl))
+  | "rlDecode", [mdb; maxlen; src] ->
+    (match rlDecode (z_of_hex mdb) (z_of_hex maxlen) (bytes_of_hex src) with
+     | RLOk o -> "ok:" ^ hex_of_bytes o | RLErrLimit o -> "limit:" ^ hex_of_bytes o
+     | RLErrEOF o -> "eof:" ^ hex_of_bytes o | RLFuel -> "fuel")
+  | "ahxGate", [mdb; digits; maxlen] ->
+    (match ahxGate (z_of_hex mdb) (z_of_hex digits) (z_of_hex maxlen) with
+     | AHAlloc n -> "alloc:" ^ hex_of_z n | AHErrLimit -> "limit" | AHErrEOF -> "eof" | AHErrOverflow -> "overflow")
   | "imageOK", [w; h; mip; mib] ->
     (match imageOK (z_of_hex w) (z_of_hex h) (lim z0 z0 z0 z0 (z_of_hex mip) (z_of_hex mib)) with
      | Ok (px, rb) -> Printf.sprintf "ok:%s:%s" (hex_of_z px) (hex_of_z rb)
